@@ -17,7 +17,7 @@ SPELL = {
     "mdlink": "[//]:", "lpar": "(", "rpar": ")", "li": "- ", "quote": "> ", "colon": ":",
     # diff lines
     "src": "--- a/f.py\n", "tgt": "+++ b/f.py\n", "hunk1": "@@ -1 +1 @@\n", "hunkdel": "@@ -1,2 +0,0 @@\n", "hunkadd": "@@ -0,0 +1,2 @@\n",
-    "minus": "-old\n", "plus": "+# <block name=\"a\">\n", "ctx": " ctx\n", "nonl": "\\ No newline at end of file\n",
+    "minus": "-old\n", "plus": "+# <block name=\"a\">\n", "minus_mb": "-# Превет é😀\n", "plus_mb": "+# Привет è😁\n", "ctx": " ctx\n", "nonl": "\\ No newline at end of file\n",
     "bodysrc": "--- x\n", "bodytgt": "+++ y\n", "git": "diff --git a/f.py b/f.py\n", "empty": "\n", "badhunk": "@@ -x +y @@\n",
     "tgtnull": "+++ /dev/null\n",
 }
@@ -64,9 +64,22 @@ def run(chk):
                 if mode == 1:
                     case["args"] = ["list"]
                 elif mode == 2:
-                    n = (pre + text).count("\n") + 1
-                    case.update(terminal=False, diff="diff --git a/%s b/%s\n--- a/%s\n+++ b/%s\n@@ -1 +1,%d @@\n-x\n%s" % (
-                        name, name, name, name, n, "".join("+" + l + "\n" for l in (pre + text).split("\n"))))
+                    # diff mode: the soup against the same soup with one character changed into a sibling that
+                    # shares its leading UTF-8 byte(s), every line as a -/+ pair (character-level diff of hostile text)
+                    new_t = pre + text
+                    old_t = new_t
+                    for a, b in (("é", "è"), ("😀", "😁"), ("\u00a0", "\u00a1"), ("x", "y"), ("<", "(")):
+                        if a in old_t:
+                            old_t = old_t.replace(a, b, 1)
+                            break
+                    else:
+                        old_t = old_t + "ж"
+                        new_t = new_t + "з"
+                        case["files"] = {name: new_t}
+                    ol, nl_ = old_t.split("\n"), new_t.split("\n")
+                    case.update(terminal=False, diff="diff --git a/%s b/%s\n--- a/%s\n+++ b/%s\n@@ -1,%d +1,%d @@\n%s%s" % (
+                        name, name, name, name, len(ol), len(nl_), "".join("-" + l + "\n" for l in ol),
+                        "".join("+" + l + "\n" for l in nl_)))
                 batch.append(case)
                 nontrivial += len(c["soup"]) >= 2
     chk.exhaustive = True
